@@ -749,7 +749,7 @@ async fn get_serverids(s: &SharedServerIds) -> ServerIds {
 }
 
 fn to_array(mac: &[u8]) -> Option<[u8; 6]> {
-    mac[0..6].try_into().ok()
+    mac.get(0..6)?.try_into().ok()
 }
 
 #[cfg(feature = "verif-hooks")]
